@@ -204,3 +204,144 @@ Proof.
   all: intros l; rewrite HF; destruct (target (env_of E) _ _); reflexivity.
 Qed.
 Print Assumptions C17gen_load_is_spec.
+
+(* ------------------------------------------------------------------ 5. the regenerated load = the load of Model/Cache.v *)
+(* for EVERY state of the model (any files, truncated / foreign / garbage included), any runtime-cache content rt of the
+   process and any pid: the regenerated MachineModel(path_to_yaml=pa) returns the data, leaves the files and keeps the
+   model files exactly as process pid of Model/Cache.v does when it runs the load alone (AtomicRename, key = hash of
+   the parsed bytes, runtime cache never served); it never raises; afterwards _runtime_cache[pa] is the returned data *)
+Theorem C17gen_load_is_model :
+  forall E, garbage_ok E -> forall (s : state) rt pid pa prevd,
+    let w := setup_of E in
+    let s1 := solo w (fuel_of w) (start_state s pid pa false prevd) pid in
+    exists f F d, g_load E (yaml s) (files s) rt pid pa false = (ROk (VObj f), mkGst (yaml s) F ((pp_of_path pa, VData d) :: rt) pid) /\
+                  assoc f "_data" = Some (VData d) /\
+                  outcome_of s1 pid = ODone d /\
+                  yaml s1 = yaml s /\
+                  forall l, F l = files s1 l.
+Proof.
+  intros E Hg s rt pid pa prevd w s1.
+  destruct (C17gen_load_is_spec E Hg (yaml s) (files s) rt pid pa) as [f [F [EQ [HD HF]]]].
+  destruct (solo_load_spec w s pid pa prevd eq_refl eq_refl eq_refl) as [A [B C]].
+  exists f, F, (fst (load_spec w (yaml s) (files s) pa)). repeat split; auto.
+  intros l. rewrite HF. symmetry. apply C.
+Qed.
+Print Assumptions C17gen_load_is_model.
+
+(* through the model's own entry point: a load spawned by LSpawn in a state where pid is free *)
+Corollary C17gen_load_is_model_load :
+  forall E, garbage_ok E -> forall (s : state) rt pid pa,
+    procs s pid = None ->
+    let w := setup_of E in
+    exists f F d, g_load E (yaml s) (files s) rt pid pa false = (ROk (VObj f), mkGst (yaml s) F ((pp_of_path pa, VData d) :: rt) pid) /\
+                  assoc f "_data" = Some (VData d) /\
+                  outcome_of (load w s pid pa false) pid = ODone d /\
+                  forall l, F l = files (load w s pid pa false) l.
+Proof.
+  intros E Hg s rt pid pa Hp w.
+  destruct (C17gen_load_is_model E Hg s rt pid pa None) as [f [F [d [EQ [HD [HO [HY HF]]]]]]].
+  exists f, F, d. unfold load, spawn. cbn [run_skip step]. rewrite Hp. repeat split; auto.
+Qed.
+Print Assumptions C17gen_load_is_model_load.
+
+(* ------------------------------------------------------------------ 6. the lazy (header-only) load *)
+Theorem C17gen_lazy_load_cache_free :
+  forall E y fs rt pid pa,
+    exists f, g_load E y fs rt pid pa true = (ROk (VObj f), mkGst y fs rt pid) /\ assoc f "_data" = Some (VLazy (y pa)).
+Proof.
+  intros E y fs rt pid [dir stem]. unfold g_load, g__init__. crunch.
+  destruct (rt_get rt _); crunch; eexists; split; reflexivity.
+Qed.
+Print Assumptions C17gen_lazy_load_cache_free.
+
+(* ------------------------------------------------------------------ 7. the theorems of Props/C17.v, for the regenerated code *)
+(* cache transparency after any history of the model: whatever interleaving of loads, crashes at any step and edits
+   produced the state s (from a state that satisfies the invariant), the regenerated load returns the parse of the
+   CURRENT content of the model file -- cold, companion-served and home-served loads are indistinguishable, an edit is
+   picked up, a file left by a killed or racing writer is never served *)
+Theorem C17gen_cache_transparent :
+  forall E, garbage_ok E -> 0 < ge_nch E -> forall s0 ls s rt pid pa,
+    let w := setup_of E in
+    Inv w s0 -> run w s0 ls = Some s -> procs s pid = None ->
+    exists f F, g_load E (yaml s) (files s) rt pid pa false =
+                (ROk (VObj f), mkGst (yaml s) F ((pp_of_path pa, VData (parse (w_cfg w) (yaml s pa))) :: rt) pid) /\
+                assoc f "_data" = Some (VData (parse (w_cfg w) (yaml s pa))).
+Proof.
+  intros E Hg Hn s0 ls s rt pid pa w HI HR Hp. subst w.
+  destruct (C17gen_load_is_model_load E Hg s rt pid pa Hp) as [f [F [d [EQ [HD [HO HF]]]]]].
+  pose proof (current_code_later_run_ok (ge_nch E) (w_cfg (setup_of E)) (env_of E) s0 ls s pid pa Hn HI HR Hp) as HL.
+  assert (HL' : outcome_of (load (setup_of E) s pid pa false) pid = ODone (parse (w_cfg (setup_of E)) (yaml s pa))) by exact HL.
+  cbv zeta in HO. rewrite HL' in HO. inversion HO; subst d. exists f, F. split; assumption.
+Qed.
+Print Assumptions C17gen_cache_transparent.
+
+(* the same on the file system alone, as an invariant of sequential histories of the REGENERATED code: loads (any pid,
+   any runtime cache), edits of model files, temp files in any state (what a killed writer leaves), truncated pickles
+   of anything and complete pickles of another format version planted under final names.  Every load returns the parse of
+   the current content and never raises. *)
+Inductive gev :=
+| GLoad (pid : nat) (pa : path) (rt : list (pypath * val))
+| GEdit (pa : path) (c : content)
+| GTmp (pid : nat) (b : option bytes)
+| GTrunc (l : loc) (k : nat) (d : data)
+| GForeign (l : loc) (b : bytes) (d : data).
+
+Fixpoint ghist_ok (E : genv) (y : path -> content) (fs : loc -> option bytes) (evs : list gev) : Prop :=
+  match evs with
+  | [] => True
+  | GLoad pid pa rt :: r =>
+      data_of (fst (g_load E y fs rt pid pa false)) = Some (VData (parse (w_cfg (setup_of E)) (y pa))) /\
+      ghist_ok E y (gs_files (snd (g_load E y fs rt pid pa false))) r
+  | GEdit pa c :: r => ghist_ok E (updy y pa c) fs r
+  | GTmp pid b :: r => ghist_ok E y (updf fs (Tmp pid) b) r
+  | GTrunc l k d :: r => k <> ge_nch E -> ghist_ok E y (updf fs l (Some (repeat (Some d) k))) r
+  | GForeign l b d :: r => decode (ge_nch E) b = Some d -> d_iv d <> S g_INTERNAL_VERSION -> ghist_ok E y (updf fs l (Some b)) r
+  end.
+
+Theorem C17gen_history_transparent :
+  forall E, garbage_ok E -> forall evs y fs, KeyedF (setup_of E) fs -> ghist_ok E y fs evs.
+Proof.
+  intros E Hg. induction evs as [|ev r IH]; intros y fs HK; [exact I|].
+  destruct ev as [pid pa rt|pa c|pid b|l k d|l b d]; cbn [ghist_ok].
+  - destruct (C17gen_load_is_spec E Hg y fs rt pid pa) as [f [F [EQ [HD HF]]]]. cbv zeta in *.
+    rewrite EQ. cbn [fst snd data_of gs_files]. rewrite HD.
+    rewrite (load_spec_keyed _ _ _ _ HK). split; [reflexivity|].
+    apply IH. eapply KeyedF_apply_fx; eauto.
+  - apply IH, HK.
+  - apply IH. eapply KeyedF_ext; [|exact HK]. intros l Hl. unfold updf. destruct l; cbn in *; try reflexivity. congruence.
+  - intros Hk. apply IH. intros l' b' h d' Hl Hkd Hd Hv. unfold updf in Hl.
+    destruct (loc_eqb l l') eqn:El; [|eapply HK; eauto].
+    inversion Hl; subst b'. cbn [setup_of w_nch] in Hd. rewrite decode_prefix in Hd by exact Hk. discriminate.
+  - intros Hd Hv. apply IH. intros l' b' h d' Hl Hkd Hd' Hv'. unfold updf in Hl.
+    destruct (loc_eqb l l') eqn:El; [|eapply HK; eauto].
+    inversion Hl; subst b'. cbn [setup_of w_nch w_cfg c_iv] in *. rewrite Hd in Hd'. inversion Hd'; subst d'. contradiction.
+Qed.
+Print Assumptions C17gen_history_transparent.
+
+(* non-vacuity: the empty cache satisfies the invariant; cold load, warm load, edit, load, in one history *)
+Example C17gen_history_nonvacuous :
+  KeyedF (setup_of E00) (fun _ => None) /\
+  ghist_ok E00 (fun _ => 7) (fun _ => None)
+           [GLoad 0 (mkPath 0 0) []; GLoad 1 (mkPath 0 0) []; GEdit (mkPath 0 0) 8; GTrunc (Comp 0 0 8) 0 (mkData 0 0 0); GLoad 2 (mkPath 0 0) []].
+Proof.
+  split; [intros l b h d H; discriminate|].
+  apply C17gen_history_transparent; [intros b; reflexivity | intros l b h d H; discriminate].
+Qed.
+
+(* ------------------------------------------------------------------ 8. an interrupted write *)
+(* the writer killed after any number kc of chunks (no handler, no finally clause runs): every final name holds what it
+   held before; only the temp file of this pid has changed *)
+Theorem C17gen_killed_writer_leaves_final_names :
+  forall E kc f d y fs rt pid pa hm h,
+    assoc f "_data" = Some (VData d) ->
+    exists F, exec_crash E kc (py_call (g_write_cachefile (VObj f) (VPath (probe_pp pa hm h)))) (mkGst y fs rt pid) =
+              (GKilled, mkGst y F rt pid) /\
+              forall l, F l = apply_fx_crash (ge_nch E) pid kc fs (FxWrite (probe_loc pa hm h) d) l.
+Proof.
+  intros E kc f d y fs rt pid [dir stem] hm h Hd.
+  destruct hm; unfold g_write_cachefile; crunch; eexists; (split; [reflexivity|]);
+    intros l; unfold updf; cbn;
+    destruct l as [d' s' h'|s' h'|p']; cbn; try reflexivity;
+    destruct (pid =? p'); reflexivity.
+Qed.
+Print Assumptions C17gen_killed_writer_leaves_final_names.
